@@ -9,47 +9,64 @@ CONFIG = {
                  "convert_rdf_object, populate_list; maps keyed as in the source; HashMap indexing as explicit panic outcome) "
                  "plus a reader for the documents it emits; kernel-checked theorems about that model; JSON-level and "
                  "round-trip-level differential against the real JsonLdSerializer / JsonLdParser",
-    "level_text": "Proof on the Lean model, for all datasets, modes 1.0/1.1 x use_rdf_type: (1) dropped_iff_not_jsonld + isJsonLd_spec: the "
-                  "document depends only on the quads is_jsonld keeps, and is_jsonld is exactly the property's 'expressible'; "
-                  "(2) roundtrip_nolist_partial: for well-formed IRIs process_quads stores exactly the expressible quads (none dropped, none "
-                  "invented) and, when rdf:first/rest/nil are absent, nothing is marked, so jsonify omits no slot on account of lists; node_object_roundtrip: for one node map, make_node_object followed by the reader gives back exactly the triples it holds (all literal kinds, IRIs, blank nodes, rdf:nil, @type); "
-                  "(3) no_panic_partial: the marking phase (the only code indexing unique_parent) cannot panic when every rdf:rest subject "
-                  "is referenced - or on any input once the lookup is .get(..) (switch regenerated from the source); "
-                  "(4) kernel-checked (decide) counterexamples to the full statements: no_panic_refuted (2-quad unreferenced list head), "
-                  "roundtrip_refuted_cross_graph / _self_list / _typed_list, hence suppressed_compensated_refuted and roundtrip_all_refuted. "
-                  "The tie model = code is differential: canonical JSON of the model's document vs the real serializer's text, and the model's "
-                  "predicted round-trip verdict vs JsonLdParser on the real output (exact blank-node isomorphism in the harness), on the "
-                  "list-shape generator plus an exhaustive small scope (all datasets of <= 2 [quick] / <= 3-4 [thorough] quads over a "
-                  "48-72 quad vocabulary).",
-    "level_note": "Not proved (stated as defs RoundtripNoList / NoPanic with the missing obligation): the traversal part of the round trip "
-                  "(side conditions of node_object_roundtrip as engine invariants; @graph links reach every named-graph slot) and "
-                  "panic-freedom of populate_list. Observed only: json-ld 0.15.1 (parser), JSON text printing. Excluded by the property: "
-                  "use_native_types. rdf:JSON lexical forms are assumed valid JSON. Known findings (6): panic on unreferenced list heads; "
-                  "list_node keyed by label only; self-containing lists dropped; rdf:type rdf:List of compacted cells dropped (as in the "
-                  "W3C algorithm); i18n datatype without language misread by json-ld; compound literals never survive.",
+    "level_text": "Proof on the Lean model (for all datasets; modes 1.0/1.1 x use_rdf_type; rdf_direction unset): "
+                  "(1) roundtrip_nolist: every dataset with absolute IRIs and without rdf:first/rest/nil - default and named graphs, "
+                  "blank graph names, blank nodes shared between graphs, all literal kinds incl. rdf:JSON, rdf:type with IRI / blank / "
+                  "literal objects - serialises to a document that reads back as exactly the expressible quads (none dropped, none "
+                  "invented, labels unchanged); built from denotes_processQuads (the engine holds exactly the expressible quads), the "
+                  "@graph-link invariant GInv (sound + complete) and node_object_roundtrip per slot; no_panic_nolist is its corollary. "
+                  "(2) dropped_iff_not_jsonld + isJsonLd_spec: the document depends only on the quads is_jsonld keeps, and is_jsonld is "
+                  "exactly the property's 'expressible'. "
+                  "(3) no_panic_partial: on EVERY dataset the marking phase (mark_list_node for all seeds: the only reader of "
+                  "unique_parent, and a `loop`) returns normally - no panic, and the walk up the rdf:rest parents passes each slot at "
+                  "most once, so it terminates (the model's fuel is never exhausted); uses unique_parent_lookup_is_get, which pins "
+                  "the regenerated switch (`.get(s_id)`, not `[s_id]`). "
+                  "(4) kernel-checked (decide) counterexamples to the full statements with lists: roundtrip_refuted_cross_graph / "
+                  "_self_list / _typed_list, hence suppressed_compensated_refuted and roundtrip_all_refuted. "
+                  "The tie model = code is differential: canonical JSON of the model's document vs the real serializer's text, and the "
+                  "model's predicted round-trip verdict vs JsonLdParser on the real output (exact blank-node isomorphism in the harness), "
+                  "on the list-shape generator plus exhaustive small scopes (all datasets of <= 2 [quick] / <= 3-4 [thorough] quads over a "
+                  "48-72 quad vocabulary; a one-cell list plus every <= 2 further quads over 96). Independent of the model, the harness "
+                  "checks the real code alone: serializer error / panic / hang on an in-domain dataset, round trip through the real "
+                  "parser, and the second QuadSerializer (Jsonifier, reused after another dataset) against the stringifier.",
+    "level_note": "Not proved (def NoPanic / SuppressedCompensated, with the missing obligation in the doc comments): anything about the "
+                  "rendering of MARKED lists (populate_list panic-freedom and termination; a well-formed singly referenced list comes back) "
+                  "- lists are covered by kernel-checked examples and the differential only; rdf_direction i18n / compound (differential "
+                  "only). Observed only: json-ld 0.15.1 (parser), JSON text printing (re-parsed by the harness). Excluded by the property: "
+                  "use_native_types. rdf:JSON lexical forms are opaque text in the model (35 canonical forms exercised: exponents, 2^53, "
+                  "escapes, non-BMP, depth 5). Known findings (5 open + 1 fixed): list_node keyed by label only; self-containing lists "
+                  "dropped; rdf:type rdf:List of compacted cells dropped (as in the W3C algorithm); i18n datatype without language misread "
+                  "by json-ld; compound literals never survive; (fixed 949b852) panic on unreferenced list heads.",
     "tables": ["jsonldflags"],
     "lean_targets": ["SophiaProofs.Props.C12", "SophiaProofs.Audit.C12"],
-    "theorems": ["no_panic_witness", "no_panic_refuted", "no_panic_partial", "dropped_iff_not_jsonld", "isJsonLd_spec",
+    "theorems": ["unique_parent_lookup_is_get", "no_panic_partial", "no_panic_nolist", "dropped_iff_not_jsonld", "isJsonLd_spec",
+                 "roundtrip_nolist", "roundtrip_nolist_closed", "roundtrip_nolist_partial", "node_object_roundtrip",
                  "roundtrip_refuted_cross_graph", "roundtrip_refuted_self_list", "roundtrip_refuted_typed_list",
-                 "suppressed_compensated_refuted", "roundtrip_all_refuted", "roundtrip_nolist_partial", "node_object_roundtrip"],
+                 "suppressed_compensated_refuted", "roundtrip_all_refuted"],
     "native_ok": [],
     "panic_is_reply": True,
     "trivial_re": r"kept=0( |$)",
     "rule": "list-shape generator of the property's quantifier (harness/props/c12/src/generator.rs): a well-formed rdf:first/rest "
-            "chain (0-3 items: IRIs, blank nodes, literals incl. rdf:JSON, rdf:nil, nested lists) in the default or a named "
-            "(IRI / blank) graph, then one of 16 deformations (shared head, branching, cyclic through rest / first, rdf:List-typed, "
-            "split across graphs, reference from another graph, unreferenced head, same label described in two graphs, cell as "
-            "graph name, extra property, mid-chain reference, head below rdf:first/rest, duplicate quads, literal rdf:rest), "
-            "rdf:type with IRI / blank / literal objects, random strict quads, inexpressible quads (literal subject, blank or "
-            "literal predicate, quoted triples, variables, literal graph), relative IRIs (differential only), i18n / compound-literal "
-            "shapes; x modes 1.0/1.1 x use_rdf_type x rdf_direction x indentation; quad order shuffled. distinct = distinct request "
-            "lines; non-trivial = at least one expressible quad",
+            "chain (0-3 items, 1 in 10: 4-8, thorough also 9-40; items: IRIs incl. odd absolute ones, blank nodes, literals incl. 35 canonical "
+            "rdf:JSON forms / control characters / U+2028 / non-BMP / 300+ characters / 7 language tags, rdf:nil, nested lists to depth 2) in "
+            "the default or a named graph (IRI, blank, or an IRI that is also a subject), then one of 21 deformations (shared head, "
+            "branching, cyclic through rest / first, rdf:List-typed, split across graphs, reference from another graph, unreferenced head, "
+            "same label described in two graphs, cell as graph name, extra property, mid-chain reference, head below rdf:first/rest, "
+            "duplicate quads, literal rdf:rest, head referenced by ONE subject through TWO predicates, cell that is both rdf:first and "
+            "rdf:rest of its parent, IRI cell, same subject from two graphs); lists sharing a tail; a nested list in front of a cell that is "
+            "not a list node; an IRI that is graph name and node; rdf:type with IRI / blank / literal objects; random strict quads; "
+            "inexpressible quads (literal subject, blank or literal predicate, quoted triples, variables, literal graph); relative IRIs "
+            "(differential only); i18n / compound-literal shapes; x modes 1.0/1.1 x use_rdf_type x rdf_direction x indentation 0/1/2/4/8/300; "
+            "quad order shuffled; plus the exhaustive scopes. distinct = distinct request lines; non-trivial = at least one expressible quad",
     "trusted_base": ["json-ld 0.15 / json-syntax crates (expansion, toRdf, JSON parsing): observed through the differential only",
                      "harness isomorphism test (brute force over signature-compatible bijections, harness/props/c12/src/main.rs)"],
-    "assumptions": ["rdf:JSON literals carry valid JSON in canonical form (the serializer re-parses and re-prints them)",
+    "assumptions": ["rdf:JSON literals carry valid JSON in canonical form (the serializer re-parses and re-prints them; the harness "
+                    "treats a request with an unparsable rdf:JSON literal as out of domain)",
                     "IRIs are absolute (relative IRIs are exercised differentially only: `&id[..2]` panics on 1-byte ids)",
                     "HashMap iteration order is irrelevant (object keys and set-valued arrays are sorted before comparison)"],
-    "exec_timeout": 600,
+    # per-request hangs are detected by the harness itself (watched child process, 60 s per request); this outer limit only
+    # guards against the harness process itself stalling, and is far above the ~1-3 min a thorough run takes per side
+    "exec_timeout": 3600,
     "search_rounds": 3,
     "search_time": 240,
 }
@@ -241,28 +258,38 @@ def _explain(req, impl):
     graphs = _graphs(qs)
     cyc = {g: _first_cycle_reach(qs, g) for g in graphs} if opts["mode"] == "11" else {}
     cross = {g: _cross_suppressed(qs, g, graphs) for g in graphs}
-    for sig in lost:
+    def reasons(q):
+        s, p, o, g = q
         why = set()
-        for q in qs:
-            s, p, o, g = q
-            if " ".join([_mask(s), _mask(p), _mask(o), _mask(g)]) != sig:
+        # (a) rdf:type rdf:List of a compacted cell
+        if opts["urt"] == "0" and s[0] == "b" and p == TYPE and o == LIST and _listshaped(qs, s, g):
+            why.add("typed")
+        # (b) the label is a list cell in another graph: this description is suppressed
+        if s[0] == "b" and s in cross[g]:
+            why.add("cross")
+        # (b') the graph is named by a label that is a list cell in a named graph
+        if g is not None and g[0] == "b" and any(g2 is not None and _listshaped(qs, g, g2) for g2 in graphs):
+            why.add("cross")
+        # (c) list cells hanging below a cycle through rdf:first: never reached from a rendered node
+        if s[0] == "b" and p in (FIRST, REST, TYPE) and s in cyc.get(g, ()):
+            why.add("cycle")
+        # (d) rdf_direction = compound-literal: the description of a compound literal node
+        if opts["dir"] == "c" and s[0] == "b" and p in (VALUE, DIRECTION, LANGUAGE) and _compoundshaped(qs, s, g):
+            why.add("compound")
+        return why
+
+    distinct = sorted(set(qs), key=repr)
+    for sig in sorted(set(lost)):
+        why, n = set(), 0
+        for q in distinct:
+            if " ".join(_mask(x) for x in q) != sig:
                 continue
-            # (a) rdf:type rdf:List of a compacted cell
-            if opts["urt"] == "0" and s[0] == "b" and p == TYPE and o == LIST and _listshaped(qs, s, g):
-                why.add("typed")
-            # (b) the label is a list cell in another graph: this description is suppressed
-            if s[0] == "b" and s in cross[g]:
-                why.add("cross")
-            # (b') the graph is named by a label that is a list cell in a named graph
-            if g is not None and g[0] == "b" and any(g2 is not None and _listshaped(qs, g, g2) for g2 in graphs):
-                why.add("cross")
-            # (c) list cells hanging below a cycle through rdf:first: never reached from a rendered node
-            if s[0] == "b" and p in (FIRST, REST, TYPE) and s in cyc.get(g, ()):
-                why.add("cycle")
-            # (d) rdf_direction = compound-literal: the description of a compound literal node
-            if opts["dir"] == "c" and s[0] == "b" and p in (VALUE, DIRECTION, LANGUAGE) and _compoundshaped(qs, s, g):
-                why.add("compound")
-        if not why:
+            w = reasons(q)
+            if w:
+                n += 1
+                why |= w
+        # every lost quad needs an input quad OF ITS OWN (same masked signature) that has a reason to be lost
+        if not why or lost.count(sig) > n:
             return None
         classes |= why
     return classes
@@ -274,9 +301,10 @@ def _rt_failure(failure, cls):
     I = kv(failure["impl"])
     if I.get("rt") != "0" or I.get("dom") != "1":
         return False
-    # the model reproduces the defect: same document, same verdict
+    # the model reproduces the defect: same document, same verdict (no `rt` = the model's isomorphism search gave
+    # up: more than 16 blank nodes or budget exhausted)
     M = kv(failure["model"])
-    if M.get("rt") != "0" or M.get("json") != I.get("json"):
+    if M.get("rt", "0") != "0" or M.get("json") != I.get("json"):
         return False
     ex = _explain(failure["request"], failure["impl"])
     return ex is not None and cls in ex
